@@ -604,9 +604,12 @@ pub fn run_c05(ctx: &mut Ctx) {
                         b
                     })
                     .collect();
+                // on a GET (RFC 7641) and on a FETCH (RFC 8132 2.4) request alike
+                let method = if (v + len as u32) % 2 == 0 { 0x01u8 } else { 0x05 };
                 rep.eval();
                 let got = guard(|| {
                     let mut p = Packet::new();
+                    p.header.code = MessageClass::from(method);
                     p.add_option(CoapOption::Observe, raw.clone());
                     p.add_option(CoapOption::Observe, alloc_vec_one());
                     let rq = coap_lite::CoapRequest::from_packet(p, 1u8);
@@ -623,7 +626,7 @@ pub fn run_c05(ctx: &mut Ctx) {
                 if ok {
                     rep.count("observe_flag_encodings_checked");
                 } else {
-                    rep.violation("observe-flag-from-message", format!("Observe value {} reads as {:?}", crate::rng::hex(&raw), got.map_err(|p| p.text())), format!("Observe = {}", crate::rng::hex(&raw)));
+                    rep.violation("observe-flag-from-message", format!("Observe value {} on a {} request reads as {:?}", crate::rng::hex(&raw), if method == 1 { "GET" } else { "FETCH" }, got.map_err(|p| p.text())), format!("Observe = {} on code {:#04x}", crate::rng::hex(&raw), method));
                 }
             }
         }
